@@ -13,7 +13,9 @@ MANIFEST = dict(
          "(1) header framing: the text handed to the C++ header writer is evaluated symbolically (join / % / format / f-string, temporaries and private helpers folded) and the trailer after the pretty-printed dict read off it; the "
          "C++ reader's sentinel literal, comparison width and post-sentinel skip must reproduce exactly that trailer (data offset = header "
          "length) and the sentinel must be anchored by line boundaries on both sides so that user text containing END cannot match; the "
-         "Python parser drops exactly the trailer lines; (2) SIZE line: prefix, width >= 20 and conversion agree between writer, in-place "
+         "number of bytes counted as header after the sentinel is a constant (no loop over the bytes that follow, which are row data); the C++ "
+         "writer never uses the text as a printf format and hands it to one output call that copies it unchanged (data flow of the text "
+         "through locals, buffers and helpers); the Python parser drops exactly the trailer lines; (2) SIZE line: prefix, width >= 20 and conversion agree between writer, in-place "
          "updater and parser; (3) payload pass-through: on the binary path the object handed to Records::Write is a view of the caller's "
          "array (no conversion), native-order conversion and dtype byte-order stripping are control dependent on the text condition, the "
          "C++ writer issues one fwrite of rowsize x nrows with a short-write throw, readers allocate zeros(n, dtype=<file dtype>) and seek "
@@ -761,6 +763,7 @@ def run(chk):
     chk.floor = 40
     cfun = cfront.functions(cfront.load_tu("records"))
     fr = framing(chk, repo, cfun)
+    header_bytes_verbatim(chk, cfun)
     size_line(chk, repo, cfun)
     payload(chk, repo, cfun)
     header_content(chk, repo, fr)
@@ -865,6 +868,45 @@ def holds(rels, lhs, op, rhs):
     return any((l, o, r) == (lhs, op, rhs) or (r, _CSWAP.get(o), l) == (lhs, op, rhs) for l, o, r in rels if r is not None)
 
 
+_BYTE_READS = ("fgetc", "getc", "getc_unlocked", "fread", "fgets")
+
+
+def _has_sentinel_cmp(l):
+    return any(cfront.callee_name(c) in ("strncmp", "memcmp") for c in cfront.calls_in(l)) or \
+        any(c.get("kind") == "CXXMemberCallExpr" and cfront.callee_name(c) == "compare" for c in cfront.walk(l))
+
+
+def _loop_depends_on_bytes(fn, l):
+    """does the number of iterations of loop l depend on what is read from the file: its condition, or the condition of an
+    `if` inside it that leaves the loop, contains a byte-reading call or a variable that receives one.  Text or None."""
+    bytevars = set()
+    for x in cfront.walk(cfront.body_of(fn)):
+        k = x.get("kind")
+        if k == "VarDecl" and x.get("name"):
+            init = [y for y in x.get("inner", []) or [] if isinstance(y, dict) and y.get("kind")]
+            if init and any(cfront.callee_name(c) in _BYTE_READS for c in cfront.calls_in(init[-1])):
+                bytevars.add(x["name"])
+        elif k == "BinaryOperator" and x.get("opcode") == "=":
+            lhs = cfront.strip(x["inner"][0])
+            if lhs.get("kind") == "DeclRefExpr" and any(cfront.callee_name(c) in _BYTE_READS for c in cfront.calls_in(x["inner"][1])):
+                bytevars.add(cfront.render(lhs))
+
+    def reads(c):
+        if not isinstance(c, dict) or not c.get("kind"):
+            return False
+        return any(cfront.callee_name(y) in _BYTE_READS for y in cfront.calls_in(c)) or \
+            any(y.get("kind") == "DeclRefExpr" and (y.get("referencedDecl") or {}).get("name") in bytevars for y in cfront.walk(c))
+    inner = l.get("inner", []) or []
+    k = l.get("kind")
+    cond = inner[0] if k == "WhileStmt" else (inner[1] if k == "DoStmt" and len(inner) > 1 else ((inner + [{}] * 5)[2] if k == "ForStmt" else None))
+    if reads(cond):
+        return "while `%s` holds, a test on the bytes read from the file" % cfront.render(cond)
+    for x in cfront.walk(l):
+        if x.get("kind") == "IfStmt" and reads(x["inner"][0]) and any(y.get("kind") in ("BreakStmt", "ReturnStmt", "GotoStmt") for y in cfront.walk(x)):
+            return "until `%s`, a test on the bytes read from the file" % cfront.render(x["inner"][0])
+    return None
+
+
 def reader_model(rd):
     """What the C++ header reader does with the byte stream, in either of the two recognised idioms:
        (a) a fixed window shifted by one byte per fgetc and compared with strncmp/memcmp against a literal, a byte counter,
@@ -877,10 +919,22 @@ def reader_model(rd):
     inits = c_inits(rd)
     loops = [x for x in cfront.walk(body) if x.get("kind") in ("WhileStmt", "DoStmt", "ForStmt")]
     scan = [l for l in loops if any(cfront.callee_name(c) == "fgetc" for c in cfront.calls_in(l))]
+    if len(scan) > 1:
+        # the scanning loop is the one that compares against the sentinel; other loops that read bytes are looked at below
+        withcmp = [l for l in scan if _has_sentinel_cmp(l)]
+        inner = [l for l in withcmp if not any(m is not l and id(m) in {id(x) for x in cfront.walk(l)} for m in withcmp)]
+        if len(inner) == 1:
+            scan = inner
     if len(scan) != 1:
         raise AnalysisError("the byte scanning loop (one loop calling fgetc) not found in read_sfile_header")
     loop = scan[0]
     inloop = {id(x) for x in cfront.walk(loop)}
+    order = {id(x): i for i, x in enumerate(cfront.walk(body))}
+    # loops after the scanning loop that read more bytes of the file: what follows the trailer is row data
+    later = [l for l in loops if id(l) not in inloop and order[id(l)] > order[id(loop)] and id(loop) not in {id(x) for x in cfront.walk(l)}
+             and any(cfront.callee_name(c) in _BYTE_READS for c in cfront.calls_in(l))]
+    later = [l for l in later if not any(m is not l and id(l) in {id(x) for x in cfront.walk(m)} for m in later)]       # outermost
+    inlater = {id(x): l for l in later for x in cfront.walk(l)}
     ngetc = len([c for c in cfront.calls_in(loop) if cfront.callee_name(c) == "fgetc"])
     if ngetc != 1:
         raise AnalysisError("the scanning loop of read_sfile_header does not read exactly one byte per iteration")
@@ -903,7 +957,7 @@ def reader_model(rd):
         skips = []
         cnt = None
         for x in cfront.walk(body):
-            if id(x) in inloop:
+            if id(x) in inloop or id(x) in inlater:
                 continue
             if x.get("kind") == "CompoundAssignOperator" and x.get("opcode") == "+=":
                 skips.append((cfront.render(x["inner"][0]), cfront.render(x["inner"][1])))
@@ -919,7 +973,17 @@ def reader_model(rd):
         reread = len(fr) == 1 and cnt is not None and ", 1, %s, " % cnt in fr[0]
         if not reread:
             K = None
-        return dict(S=S, width=width, K=K, window=(shifts == want, str(shifts)), idiom="shifted window + strncmp", line=cmpc[0].get("line"))
+        # a later loop that advances the byte counter: the header length then depends on the bytes after the sentinel
+        varskip = None
+        for l in later:
+            adds = [x for x in cfront.walk(l) if (x.get("kind") == "UnaryOperator" and x.get("opcode") == "++" or x.get("kind") == "CompoundAssignOperator" and x.get("opcode") == "+=")
+                    and cfront.render(x["inner"][0]) == cnt]
+            if adds:
+                K = None
+                dep = _loop_depends_on_bytes(rd, l)
+                if dep and varskip is None:
+                    varskip = (l.get("line"), "`%s` is advanced inside a loop that runs %s" % (cnt, dep))
+        return dict(S=S, width=width, K=K, varskip=varskip, window=(shifts == want, str(shifts)), idiom="shifted window + strncmp", line=cmpc[0].get("line"))
     if len(cmps) == 1 and not cmpc:
         c = cmps[0]
         base = cfront.render(cfront.strip(c["inner"][0])["inner"][0])
@@ -951,7 +1015,14 @@ def reader_model(rd):
         other = [cfront.callee_name(x) for x in after if x.get("kind") == "CallExpr" and cfront.callee_name(x) in ("fread", "fgets", "fseek", "fscanf", "getc", "ungetc")]
         post_ok = all(c_render(x["inner"][1], inits).startswith("fgetc(") for x in post_app)
         K = len(post_getc) if len(post_getc) == len(post_app) and post_ok and not other else None
-        return dict(S=S, width=width, K=K, window=(bool(tail and appended), "%s.compare(%s, %s, %s)" % (base, ptxt, ltxt, sname)),
+        varskip = None
+        for l in later:
+            if any(id(x) in inlater and inlater[id(x)] is l for x in post_getc + post_app):
+                K = None
+                dep = _loop_depends_on_bytes(rd, l)
+                if dep and varskip is None and any(inlater.get(id(x)) is l for x in post_app):
+                    varskip = (l.get("line"), "bytes are appended to `%s` inside a loop that runs %s" % (base, dep))
+        return dict(S=S, width=width, K=K, varskip=varskip, window=(bool(tail and appended), "%s.compare(%s, %s, %s)" % (base, ptxt, ltxt, sname)),
                     idiom="accumulated text + std::string::compare on its tail", line=c.get("line"))
     raise AnalysisError("sentinel comparison (strncmp/memcmp on a window, or std::string::compare on the tail) not found in read_sfile_header")
 
@@ -1058,6 +1129,13 @@ def framing(chk, repo, cfun):
     m = reader_model(rd)
     S, width, K = m["S"], m["width"], m["K"]
     chk.notes["reader_sentinel"] = {"literal": repr(S), "compared_bytes": width, "skip_after": K, "idiom": m["idiom"]}
+    # how many bytes after the sentinel still belong to the header is fixed by the writer's trailer; the bytes that follow it are
+    # row data and take every value (the first field of the first row may hold 0x0A, 0x20 ...), so nothing read there may decide it
+    vs = m.get("varskip")
+    if vs is not None or K is not None:
+        chk.ob(R, "reader::header-length-independent-of-row-bytes", vs is None, "%s:%s" % (W, vs[0]) if vs and vs[0] else W,
+               "the number of bytes counted as header after the sentinel is a constant, it does not depend on the bytes that follow the trailer (row data: any byte "
+               "value, including newline and blank, can start the first row)%s" % ("" if vs is None else ": " + vs[1] + ", so a first row beginning with such bytes is swallowed into the header and the data offset is wrong"))
     chk.ob(R, "reader::constants-found", None if (S is None or K is None) else True, W, "sentinel %r compared over %d bytes, then %s more bytes belong to the header (%s)" % (S, width, K, m["idiom"]))
     if S is None or K is None:
         return fr
@@ -1111,6 +1189,156 @@ def framing(chk, repo, cfun):
         good.append(len(a) == 3 and fmt[:1] == "s" and len(fmt) == 2 and c_render(a[1], inits).endswith(".c_str()") and c_render(a[2], inits) == "ftell(mFptr)")
     chk.ob(R, "reader::returns-text-and-position", None if (not good or None in good) else all(good), W, "the reader returns the header text (decoded as UTF-8, the encoding it was written in) and the file position after it (%s)" % [c_render(r, inits) for r in rets])
     return fr
+
+
+# ---------------------------------------------------------------------------
+# The C++ header writer puts the text it is given into the file byte for byte.  The text is user data (keys and values of the
+# header dict, field names), so it contains every character, '%' and '\\' included.  Two conditions, both decided from the data
+# flow of the text inside the writer (and the helpers it hands the text to), whatever output call is used:
+#   * the text never sits in the format position of a printf-family call (there each '%' is a conversion);
+#   * the one output call that receives it copies it unchanged: fputs(text), fwrite(text, 1, text.size()), fprintf("%s", text)
+#     with no width / precision; a width, a precision or a non-string conversion changes or truncates it.
+# ---------------------------------------------------------------------------
+
+_PRINTF_FMT_POS = {"printf": 0, "vprintf": 0, "fprintf": 1, "vfprintf": 1, "dprintf": 1, "vdprintf": 1, "sprintf": 1, "vsprintf": 1,
+                   "snprintf": 2, "vsnprintf": 2, "PyOS_snprintf": 2, "syslog": 1, "PyErr_Format": 1, "PyUnicode_FromFormat": 0,
+                   "PyString_FromFormat": 0, "PyBytes_FromFormat": 0}
+_COPY_INTO_FIRST = ("sprintf", "snprintf", "vsprintf", "vsnprintf", "PyOS_snprintf", "strcpy", "strncpy", "memcpy", "memmove", "strcat", "strncat", "stpcpy")
+_STREAM_OUT = ("fprintf", "vfprintf", "fputs", "fwrite", "fputc", "putc", "fputs_unlocked", "fwrite_unlocked", "write", "dprintf")
+
+
+def _c_refs(n):
+    return {(x.get("referencedDecl") or {}).get("name") for x in cfront.walk(n) if x.get("kind") == "DeclRefExpr"}
+
+
+def c_derived_names(fn, seeds):
+    """names of locals of fn whose value is computed from the seed names: declaration initialisers, assignments, std::string
+    append / += / assign, and the destination buffer of sprintf / strcpy / memcpy-like calls; to a fixed point"""
+    names = set(seeds)
+    body = cfront.body_of(fn)
+    nodes = list(cfront.walk(body))
+    changed = True
+    while changed:
+        changed = False
+
+        def add(nm):
+            nonlocal changed
+            if nm and nm not in names:
+                names.add(nm)
+                changed = True
+        for x in nodes:
+            k = x.get("kind")
+            if k == "VarDecl" and x.get("name"):
+                init = [y for y in x.get("inner", []) or [] if isinstance(y, dict) and y.get("kind")]
+                if init and _c_refs(init[-1]) & names:
+                    add(x["name"])
+            elif k in ("BinaryOperator", "CompoundAssignOperator") and (x.get("opcode") == "=" or k == "CompoundAssignOperator"):
+                lhs = cfront.strip(x["inner"][0])
+                if lhs.get("kind") == "DeclRefExpr" and _c_refs(x["inner"][1]) & names:
+                    add(cfront.render(lhs))
+            elif k == "CXXOperatorCallExpr" and cfront.callee_name(x) in ("operator=", "operator+="):
+                a = cfront.call_args(x)
+                if len(a) == 2 and cfront.strip(a[0]).get("kind") == "DeclRefExpr" and _c_refs(a[1]) & names:
+                    add(cfront.render(a[0]))
+            elif k == "CXXMemberCallExpr" and cfront.callee_name(x) in ("append", "assign", "push_back", "insert", "replace"):
+                obj = cfront.strip(cfront.strip(x["inner"][0]).get("inner", [{}])[0])
+                if obj.get("kind") == "DeclRefExpr" and any(_c_refs(a) & names for a in cfront.call_args(x)):
+                    add(cfront.render(obj))
+            elif k == "CallExpr" and cfront.callee_name(x) in _COPY_INTO_FIRST:
+                a = cfront.call_args(x)
+                if a and any(_c_refs(y) & names for y in a[1:]):
+                    for nm in _c_refs(a[0]):
+                        add(nm)
+    return names
+
+
+def text_outputs(cfun, fn, seeds, depth=0, seen=None):
+    """What happens to the text held in the seed names inside fn and the functions of this file it is passed to.
+    Returns (formats, outs): formats = [(line, call text, verdict)] for printf-family calls (verdict False: the format argument
+    is derived from the text; None: a format that is neither a literal nor derived from the text while the text is among the
+    arguments); outs = [(line, call text, verdict, why)] for stream output calls that receive the text."""
+    seen = seen if seen is not None else set()
+    names = c_derived_names(fn, seeds)
+    inits = c_inits(fn)
+    formats, outs = [], []
+    has = lambda n: bool(_c_refs(n) & names)
+    for c in [x for x in cfront.walk(cfront.body_of(fn)) if x.get("kind") in ("CallExpr", "CXXMemberCallExpr")]:
+        nm = cfront.callee_name(c)
+        args = cfront.call_args(c)
+        line, txt = c.get("line"), cfront.render(c)
+        L = None
+        if nm in _PRINTF_FMT_POS and len(args) > _PRINTF_FMT_POS[nm]:
+            fa = args[_PRINTF_FMT_POS[nm]]
+            L = c_string_literal(c_subst(fa, inits))
+            if L is None:
+                if has(fa):
+                    formats.append((line, txt, False))
+                elif any(has(a) for a in args):
+                    formats.append((line, txt, None))
+            else:
+                formats.append((line, txt, True))
+        if nm in _STREAM_OUT and any(has(a) for a in args):
+            if nm in _PRINTF_FMT_POS:
+                pos = _PRINTF_FMT_POS[nm]
+                va = args[pos + 1:]
+                if L is None:
+                    outs.append((line, txt, False if has(args[pos]) else None, "the text is the format"))
+                    continue
+                ds = printf_directives(L)["directives"]
+                if nm.startswith("v") or len(ds) != len(va) or any(d["suppress"] for d in ds) or "%n" in L:
+                    outs.append((line, txt, None, "format %r not matched with its arguments" % L))
+                    continue
+                mine = [d for d, a in zip(ds, va) if has(a)]
+                lossy = [d["text"] for d in mine if d["conv"] != "s" or d["width"] is not None or d["prec"] is not None or d["length"]]
+                if lossy:
+                    outs.append((line, txt, False, "conversion %s pads, truncates or reinterprets the text" % ", ".join(lossy)))
+                elif L == "%s" and len(va) == 1:
+                    outs.append((line, txt, True, "\"%s\" copies the text"))
+                else:
+                    outs.append((line, txt, None, "format %r writes more than the text" % L))
+            elif nm.startswith("fputs") and len(args) == 2 and has(args[0]):
+                outs.append((line, txt, True, "fputs copies the text"))
+            elif nm.startswith("fwrite") and len(args) == 4 and has(args[0]):
+                sz = sorted([c_render(args[1], inits), c_render(args[2], inits)])
+                whole = sz[0] == "1" and any(sz[1] in ("%s.size()" % n_, "%s.length()" % n_, "strlen(%s)" % n_, "strlen(%s.c_str())" % n_) for n_ in names if n_)
+                outs.append((line, txt, True if whole else None, "fwrite of 1 x size() bytes" if whole else "byte count %s x %s not recognised as the length of the text" % tuple(sz)))
+            else:
+                outs.append((line, txt, None, "output call not understood"))
+            continue
+        # the text handed to another function of this file
+        callee = cfun.get(nm) if nm else None
+        if callee is not None and cfront.has_body(callee) and depth < 2 and nm not in seen and any(has(a) for a in args):
+            ps = cfront.params_of(callee)
+            sub = [p for p, a in zip(ps, args) if p and has(a)]
+            if sub:
+                f2, o2 = text_outputs(cfun, callee, sub, depth + 1, seen | {nm})
+                formats.extend(f2)
+                outs.extend(o2)
+    return formats, outs
+
+
+def header_bytes_verbatim(chk, cfun):
+    R = "R01.1"
+    wr = cfun.get("Records::write_header_and_update_offset")
+    if wr is None:
+        raise AnalysisError("C++ anchor Records::write_header_and_update_offset missing")
+    chk.analysed_unit("Records::write_header_and_update_offset")
+    ps = [p for p in cfront.params_of(wr) if p]
+    formats, outs = text_outputs(cfun, wr, ps)
+    bad = [(l, t) for l, t, v in formats if v is False]
+    unk = [(l, t) for l, t, v in formats if v is None]
+    where = lambda l: "%s:%s" % (W, l) if l else cwhere(wr)
+    chk.ob(R, "cxx-writer::text-never-a-printf-format", False if bad else (None if unk else True), where(bad[0][0] if bad else (unk[0][0] if unk else wr.get("line"))),
+           "the header text (user keys, values and field names: any characters, '%%' included) is never the format argument of a printf-family call, where every "
+           "'%%' would be taken as a conversion ('%%%%' written as '%%', '%%d'/'%%s' reading arguments that are not there)%s"
+           % ("" if not (bad or unk) else ": " + "; ".join("`%s`" % t for l, t in (bad or unk))))
+    fl = [o for o in outs if o[2] is False]
+    un = [o for o in outs if o[2] is None]
+    okv = False if fl else (None if (un or len(outs) != 1) else True)
+    pick = (fl or un or outs or [(wr.get("line"), "", None, "")])[0]
+    chk.ob(R, "cxx-writer::text-written-byte-for-byte", okv, where(pick[0]),
+           "the C++ header writer hands the text to one output call that copies it unchanged (fputs, fwrite of its length, or fprintf \"%%s\" without width or precision): %s"
+           % ("; ".join("`%s` -- %s" % (t, w) for l, t, v, w in outs) if outs else "no output call receiving the text found"))
 
 
 def _returns(ev):
